@@ -2,7 +2,6 @@ package main
 
 import (
 	"encoding/json"
-	"strconv"
 	"fmt"
 	"go/ast"
 	"go/types"
@@ -10,6 +9,7 @@ import (
 	"path/filepath"
 	"regexp"
 	"sort"
+	"strconv"
 	"strings"
 	"sync"
 	"time"
@@ -44,6 +44,7 @@ type BoundedCheck struct {
 }
 
 type funcIndex struct {
+	locks lockSums
 	pkgs  []*packages.Package
 	byKey map[string]*funcRef
 }
@@ -141,15 +142,16 @@ func loadContracts(pkgs []*packages.Package, extraFiles map[string]string) (*Con
 }
 
 type Unit struct {
-	Key     string
-	Short   string
-	Con     *Contract
-	Obls    []*Obligation
-	Gaps    []string
-	Trusted []string
-	Vacuity *Obligation
-	Entry   []ParamSym
-	LoadMs  int64
+	Key       string
+	Short     string
+	Con       *Contract
+	Obls      []*Obligation
+	Gaps      []string
+	Trusted   []string
+	Vacuity   *Obligation
+	Entry     []ParamSym
+	LoadMs    int64
+	LockSites int
 }
 
 type Session struct {
@@ -202,6 +204,7 @@ func (s *Session) verifyKey(key string, con *Contract) *Unit {
 	}()
 	u.Obls = append(u.Obls, e.obls...)
 	u.Gaps = e.gaps
+	u.LockSites = e.lockSites
 	for t := range e.trustedUsed {
 		u.Trusted = append(u.Trusted, t)
 	}
